@@ -19,7 +19,7 @@
       has an extent that changes the recorded one (SQLite does not rewrite an identical record).
 
     Source lines refer to processing/gpkg/gpkg.go at the pinned tree + fix commits c3f647a, 16e3a13,
-    e2006e7 (empty geometries are skipped when the page extent is accumulated; the geometry is appended
+    e2006e7, 574d563 / 4dc32dc / a631213 (F18-F20: BOOLEAN cells read, blob cells stay blobs, column names quoted) (empty geometries are skipped when the page extent is accumulated; the geometry is appended
     to a capped copy of the columns slice; the source's srs row overwrites a row the target already has). *)
 From Coq Require Import ZArith NArith List Bool String.
 Import ListNotations.
@@ -51,12 +51,21 @@ Fixpoint foldM {A S} (f : S -> A -> res S) (l : list A) (s : S) : res S :=
 
 (** ** Data *)
 
-(** attribute values as SQLite hands them to [ReadFeatures] and takes them from [stmt.Exec] *)
+(** attribute values as SQLite hands them to [ReadFeatures] and takes them from [stmt.Exec].
+    A Go [bool] (what go-sqlite3 hands over for an integer cell of a column declared BOOLEAN; passed on by ReadFeatures
+    since fix 574d563, F18) is not a value of its own here: nothing between the reader and stmt.Exec looks at an attribute
+    value, and the driver binds true / false as the integers 1 / 0, so it is represented by [VInt 1] / [VInt 0]
+    ([value_of_bool], Gpkg/SchemaOps.v). *)
 Inductive value :=
 | VNull
 | VInt (z : Z)        (* int64 *)
 | VReal (q : Z)       (* float64; the harness uses the exactly representable q/8 *)
-| VText (s : N)       (* string / []uint8, identified by an abstract id *)
+| VText (s : N)       (* string: a TEXT value, identified by an abstract id of its content *)
+| VBlob (b : N)       (* []uint8: a BLOB value (a blob in an ATTRIBUTE column; the geometry is [CGeom]), identified by an
+                         abstract id of its content.  Distinct from the text with the same bytes: SQLite stores a storage
+                         class with every value (typeof), and the driver binds a string as TEXT and a []byte as BLOB.
+                         ReadFeatures hands a blob cell on as []byte since fix 4dc32dc (F19); before, as string(bytes):
+                         the targets received TEXT *)
 | VTime (ns : Z).     (* time.Time (what the driver hands over for a column declared DATE / DATETIME / TIMESTAMP):
                          the INSTANT, in nanoseconds since the Unix epoch -- the text layout in the file is the
                          driver's, not the source's, and is not part of the value *)
@@ -343,6 +352,7 @@ Definition value_eqb (a b : value) : bool :=
   | VInt x, VInt y => Z.eqb x y
   | VReal x, VReal y => Z.eqb x y
   | VText x, VText y => N.eqb x y
+  | VBlob x, VBlob y => N.eqb x y
   | VTime x, VTime y => Z.eqb x y
   | _, _ => false
   end.
